@@ -9,6 +9,7 @@ The models are tied to the code by harness/props/c03.py (streams lin / int / snd
 -/
 import PartituraModel.Proofs.C03Perm
 import PartituraModel.Proofs.C03Ranges
+import PartituraModel.Proofs.C03Ties
 
 namespace C03
 open Model.Xml Model.Ranges
@@ -107,6 +108,47 @@ theorem ranges_paired_partial (label : Nat) (tbl : Nat → C03.Ranges.Rng) (htim
     { ongoing := fun _ => none, done := [], lost := [] } ⟨by simp, by simp⟩ (by funext k; simp [C03.Ranges.ongoingOf]) hwf
   simpa [C03.Ranges.cOf] using this
 
+/-! ### ties -/
+
+/-- **ties_paired.**  The notes that carry `<tie>` elements, in document order (voices one after the other, so
+    not in time order), and the tie links `L` of the score.  If every link joins a note with a tie start to a
+    later note (in the document) of the same pitch that starts where the first ends, every note with a tie stop
+    ends exactly one link, no note is continued twice, and — the hypothesis of the property, *concurrently tied
+    notes have distinct pitches* — no two notes of one pitch that both carry a tie start end at the same time,
+    then the importer's pairing by pitch returns exactly the links of the score. -/
+theorem ties_paired (ns : List TieNote) (L : List (Nat × Nat))
+    (hids : (ns.map (·.note)).Nodup)
+    (hstops : L.map (·.2) = (ns.filter (·.hasStop)).map (·.note))
+    (honce : (L.map (·.1)).Nodup)
+    (hlink : ∀ ab ∈ L, ∃ A B, A.note = ab.1 ∧ B.note = ab.2 ∧ A.hasStart = true ∧ A.pitch = B.pitch ∧
+      A.stop = B.start ∧ C03.Ties.Before A B ns)
+    (hdistinct : ∀ A ∈ ns, ∀ A' ∈ ns, A.hasStart = true → A'.hasStart = true → A.pitch = A'.pitch →
+      A.stop = A'.stop → A = A') :
+    readTies ns = L := by
+  cases ns with
+  | nil =>
+    have : L = [] := by simpa using hstops
+    simp [readTies, this]
+  | cons n rest =>
+    have := C03.Ties.readTies_spec rest n [] L []
+      { ids := by simpa using hids
+        stops := by simpa using hstops
+        once := honce
+        link := by
+          intro ab hab
+          obtain ⟨A, B, hA, hB, h1, h2, h3, hbef⟩ := hlink ab hab
+          have hBm : B ∈ n :: rest := by
+            obtain ⟨l1, l2, l3, h⟩ := hbef
+            rw [h]; simp
+          exact ⟨B, hBm, hB, Or.inr ⟨A, hA, h1, h2, h3, hbef⟩⟩
+        apart := by
+          intro e he e' he' hp hs
+          simp only [C03.Ties.pool, List.nil_append, List.mem_map, List.mem_filter] at he he'
+          obtain ⟨A, ⟨hA, hAs⟩, rfl⟩ := he
+          obtain ⟨A', ⟨hA', hAs'⟩, rfl⟩ := he'
+          rw [hdistinct A hA A' hA' hAs hAs' hp hs] }
+    simpa [readTies] using this
+
 /-! ### the hypotheses are satisfiable, and the witnesses of the repaired defects -/
 
 section examples
@@ -187,6 +229,17 @@ example : C03.Ranges.WFEvs [] [] [(0, false), (1, true), (0, true), (1, false)] 
 
 example : (readMarks true [⟨0, 0, true, 1⟩, ⟨1, 4, true, 2⟩, ⟨2, 8, false, 1⟩, ⟨3, 12, true, 1⟩, ⟨4, 16, false, 2⟩,
     ⟨5, 20, false, 1⟩]).done = [(0, 2), (1, 4), (3, 5)] := by decide
+
+/-- F-C03-12 witness (corpus 12c): voice 2 ties a (12..16) to b (16..20) over the barline, voice 1 ties c (24..32)
+    to d (32..36) over the next one, all C4.  In the document: a | c b | d — the ties cross.  The unrepaired importer
+    kept one open note per pitch and returned (c, b) and nothing for d. -/
+example : readTies [⟨0, 60, 12, 16, false, true⟩, ⟨1, 60, 24, 32, false, true⟩, ⟨2, 60, 16, 20, true, false⟩,
+    ⟨3, 60, 32, 36, true, false⟩] = [(0, 2), (1, 3)] := by decide
+
+example : C03.Ties.Before (⟨0, 60, 12, 16, false, true⟩ : TieNote) ⟨2, 60, 16, 20, true, false⟩
+    [⟨0, 60, 12, 16, false, true⟩, ⟨1, 60, 24, 32, false, true⟩, ⟨2, 60, 16, 20, true, false⟩,
+      ⟨3, 60, 32, 36, true, false⟩] :=
+  ⟨[], [⟨1, 60, 24, 32, false, true⟩], [⟨3, 60, 32, 36, true, false⟩], rfl⟩
 
 end examples
 
